@@ -4,7 +4,9 @@ import (
 	"bufio"
 	"fmt"
 	"io"
+	"os"
 	"os/exec"
+	"sort"
 	"strconv"
 	"strings"
 	"time"
@@ -23,24 +25,37 @@ func (r Result) String() string { return [...]string{"unsat", "sat", "unknown"}[
 // Solver is a persistent SMT solver process driven over stdin/stdout.
 // Definitions are global (never popped); assertions follow push/pop.
 type Solver struct {
-	Kind    string // z3 | z3-new | cvc5
-	cmd     *exec.Cmd
-	in      io.WriteCloser
-	out     *bufio.Reader
-	defined map[int32]bool
-	depth   int
+	Kind     string // z3 | z3-new | cvc5
+	cmd      *exec.Cmd
+	in       io.WriteCloser
+	out      *bufio.Reader
+	lines    chan string
+	Rebuilds int
+	defined  map[int32]bool
+	depth    int
+	frames   [][]*Term // assertion stack mirror (frames[0] = base level)
+	// one-shot fallback
+	FallbackKinds   []string
+	FallbackTimeout int // seconds
+	Fallbacks       int
+	FeasUnknown     int
+	FallbackSolved  int
 	// statistics
-	Queries  int
-	Unknowns int
-	Errors   int
-	Time     time.Duration
-	LastErr  string
-	TimeoutMs int
-	Log      io.Writer
+	Queries    int
+	Unknowns   int
+	Errors     int
+	Time       time.Duration
+	LastErr    string
+	TimeoutMs  int
+	QuickMs    int
+	Stage2     int
+	quickFails int
+	skipQuick  int
+	Log        io.Writer
 }
 
 func NewSolver(kind string, timeoutMs int) (*Solver, error) {
-	s := &Solver{Kind: kind, TimeoutMs: timeoutMs}
+	s := &Solver{Kind: kind, TimeoutMs: timeoutMs, QuickMs: 100}
 	if err := s.start(); err != nil {
 		return nil, err
 	}
@@ -70,8 +85,24 @@ func (s *Solver) start() error {
 		return err
 	}
 	s.cmd, s.in, s.out = cmd, in, bufio.NewReaderSize(out, 1<<16)
+	lines := make(chan string, 1024)
+	s.lines = lines
+	rd := s.out
+	go func() {
+		defer close(lines)
+		for {
+			line, err := rd.ReadString('\n')
+			if line != "" {
+				lines <- line
+			}
+			if err != nil {
+				return
+			}
+		}
+	}()
 	s.defined = map[int32]bool{}
 	s.depth = 0
+	s.frames = [][]*Term{nil}
 	s.send("(set-option :print-success false)")
 	s.send("(set-option :produce-models true)")
 	s.send("(set-option :global-declarations true)")
@@ -154,6 +185,7 @@ func (s *Solver) Depth() int { return s.depth }
 func (s *Solver) Push() {
 	s.send("(push 1)")
 	s.depth++
+	s.frames = append(s.frames, nil)
 }
 
 func (s *Solver) Pop(n int) {
@@ -162,31 +194,111 @@ func (s *Solver) Pop(n int) {
 	}
 	s.send(fmt.Sprintf("(pop %d)", n))
 	s.depth -= n
+	s.frames = s.frames[:len(s.frames)-n]
 }
 
 func (s *Solver) Assert(t *Term) {
 	s.define(t)
 	s.send("(assert " + Ref(t) + ")")
+	s.frames[len(s.frames)-1] = append(s.frames[len(s.frames)-1], t)
 }
 
-func (s *Solver) readLine() (string, error) {
-	line, err := s.out.ReadString('\n')
+var errDeadline = fmt.Errorf("solver deadline exceeded")
+
+// rawLine reads one output line, giving up after the hard deadline (the
+// solver's own timeout is not always honoured).
+func (s *Solver) rawLine() (string, error) { return s.rawLineT(s.TimeoutMs) }
+
+func (s *Solver) rawLineT(timeoutMs int) (string, error) {
+	grace := time.Duration(timeoutMs)*time.Millisecond*2 + 3*time.Second
+	select {
+	case line, ok := <-s.lines:
+		if !ok {
+			return "", io.EOF
+		}
+		return line, nil
+	case <-time.After(grace):
+		if os.Getenv("GOSYM_DEBUG") != "" {
+			fmt.Fprintf(os.Stderr, "solver deadline after %v\n", grace)
+		}
+		return "", errDeadline
+	}
+}
+
+func (s *Solver) readLineT(timeoutMs int) (string, error) {
+	line, err := s.rawLineT(timeoutMs)
 	return strings.TrimSpace(line), err
 }
 
-// Check runs (check-sat) on the current assertion stack.
+// rebuild restarts the solver process and re-creates the assertion stack.
+func (s *Solver) rebuild() {
+	frames := s.frames
+	s.Close()
+	if err := s.start(); err != nil {
+		s.LastErr = "restart failed: " + err.Error()
+		return
+	}
+	s.Rebuilds++
+	for i, fr := range frames {
+		if i > 0 {
+			s.Push()
+		}
+		for _, t := range fr {
+			s.Assert(t)
+		}
+	}
+}
+
+// Check decides the current assertion stack. For z3 it is two-staged: a quick
+// incremental (check-sat) and, if that is inconclusive, the bit-blasting
+// tactic on the same stack (the incremental core is weak on modular arithmetic).
 func (s *Solver) Check() Result {
 	t0 := time.Now()
 	s.Queries++
-	s.send("(check-sat)")
+	var res Result
+	if s.Kind == "cvc5" {
+		res = s.checkCmd("(check-sat)", s.TimeoutMs)
+	} else {
+		res = Unknown
+		if s.skipQuick > 0 {
+			s.skipQuick--
+		} else {
+			s.send(fmt.Sprintf("(set-option :timeout %d)", s.QuickMs))
+			res = s.checkCmd("(check-sat)", s.QuickMs)
+			if res == Unknown {
+				s.quickFails++
+				if s.quickFails >= 8 {
+					s.skipQuick = 10
+				}
+			} else {
+				s.quickFails = 0
+			}
+		}
+		if res == Unknown && s.cmd != nil {
+			s.Stage2++
+			s.send(fmt.Sprintf("(set-option :timeout %d)", s.TimeoutMs))
+			res = s.checkCmd("(check-sat-using (then simplify solve-eqs bit-blast sat))", s.TimeoutMs)
+		}
+	}
+	if res == Unknown {
+		s.Unknowns++
+	}
+	s.Time += time.Since(t0)
+	return res
+}
+
+func (s *Solver) checkCmd(cmd string, timeoutMs int) Result {
+	s.send(cmd)
 	var res Result = Unknown
 	sawErr := false
 	for {
-		line, err := s.readLine()
+		line, err := s.readLineT(timeoutMs)
 		if err != nil {
 			s.LastErr = "solver died: " + err.Error()
-			sawErr = true
-			break
+			// kill the process and rebuild the stack on a fresh one
+			s.Errors++
+			s.rebuild()
+			return Unknown
 		}
 		if line == "" {
 			continue
@@ -215,35 +327,176 @@ func (s *Solver) Check() Result {
 		s.Errors++
 		res = Unknown
 	}
-	if res == Unknown {
-		s.Unknowns++
-	}
-	s.Time += time.Since(t0)
 	return res
 }
 
 // CheckAssuming checks the stack plus the extra literal, leaving the stack unchanged.
 func (s *Solver) CheckAssuming(t *Term) Result {
+	r, _ := s.CheckAssumingModel(t, nil)
+	return r
+}
+
+// CheckFeasible is a quick incremental-only check (no fallback): an unknown
+// answer is returned as such and the caller treats the literal as feasible.
+func (s *Solver) CheckFeasible(t *Term, syms []*Term) (Result, map[string]uint64) {
 	s.define(t)
 	s.Push()
 	s.send("(assert " + Ref(t) + ")")
 	r := s.Check()
+	var m map[string]uint64
+	if r == Sat && syms != nil {
+		m = s.Model(syms)
+	}
 	s.Pop(1)
-	return r
+	if r == Unknown {
+		s.Unknowns--
+		s.FeasUnknown++
+	}
+	return r, m
 }
 
-// CheckAssumingModel is CheckAssuming that also returns a model for syms when sat.
+// CheckAssumingModel is CheckAssuming that also returns a model for syms when sat
+// (syms == nil: no model wanted). An incremental "unknown" is retried as a
+// stand-alone query on fresh solver processes (different strategies apply there).
 func (s *Solver) CheckAssumingModel(t *Term, syms []*Term) (Result, map[string]uint64) {
 	s.define(t)
 	s.Push()
 	s.send("(assert " + Ref(t) + ")")
 	r := s.Check()
 	var m map[string]uint64
-	if r == Sat {
+	if r == Sat && syms != nil {
 		m = s.Model(syms)
 	}
 	s.Pop(1)
+	if r == Unknown && len(s.FallbackKinds) > 0 {
+		s.Fallbacks++
+		r2, m2 := s.oneShot(t, syms)
+		if r2 != Unknown {
+			s.FallbackSolved++
+			s.Unknowns--
+			return r2, m2
+		}
+	}
 	return r, m
+}
+
+// CheckStack checks the current stack, with the one-shot fallback.
+func (s *Solver) CheckStack(syms []*Term) (Result, map[string]uint64) {
+	r := s.Check()
+	var m map[string]uint64
+	if r == Sat && syms != nil {
+		m = s.Model(syms)
+	}
+	if r == Unknown && len(s.FallbackKinds) > 0 {
+		s.Fallbacks++
+		r2, m2 := s.oneShot(nil, syms)
+		if r2 != Unknown {
+			s.FallbackSolved++
+			s.Unknowns--
+			return r2, m2
+		}
+	}
+	return r, m
+}
+
+// queryText renders the current stack (+ extra) as a stand-alone SMT-LIB2 script.
+func (s *Solver) queryText(extra *Term, syms []*Term) string {
+	var asserts []*Term
+	for _, fr := range s.frames {
+		asserts = append(asserts, fr...)
+	}
+	if extra != nil {
+		asserts = append(asserts, extra)
+	}
+	// cone of definitions, emitted in ID order (children have smaller IDs)
+	need := map[int32]*Term{}
+	var visit func(t *Term)
+	visit = func(t *Term) {
+		if t == nil || t.Op == OConst {
+			return
+		}
+		if _, ok := need[t.ID]; ok {
+			return
+		}
+		need[t.ID] = t
+		visit(t.A)
+		visit(t.B)
+		visit(t.C)
+	}
+	for _, a := range asserts {
+		visit(a)
+	}
+	var wanted []string
+	for _, sy := range syms {
+		if _, ok := need[sy.ID]; ok {
+			wanted = append(wanted, sy.Name)
+		}
+	}
+	ids := make([]int, 0, len(need))
+	for id := range need {
+		ids = append(ids, int(id))
+	}
+	sort.Ints(ids)
+	var sb strings.Builder
+	sb.WriteString("(set-logic QF_BV)\n")
+	for _, id := range ids {
+		x := need[int32(id)]
+		if x.Op == OSym {
+			fmt.Fprintf(&sb, "(declare-const %s %s)\n", x.Name, sortOf(x.W))
+		} else {
+			fmt.Fprintf(&sb, "(define-fun t%d () %s %s)\n", x.ID, sortOf(x.W), Body(x))
+		}
+	}
+	for _, a := range asserts {
+		sb.WriteString("(assert " + Ref(a) + ")\n")
+	}
+	sb.WriteString("(check-sat)\n")
+	if len(wanted) > 0 {
+		sb.WriteString("(get-value (" + strings.Join(wanted, " ") + "))\n")
+	}
+	return sb.String()
+}
+
+func (s *Solver) oneShot(extra *Term, syms []*Term) (Result, map[string]uint64) {
+	t0 := time.Now()
+	defer func() { s.Time += time.Since(t0) }()
+	text := s.queryText(extra, syms)
+	to := s.FallbackTimeout
+	if to <= 0 {
+		to = 60
+	}
+	for _, kind := range s.FallbackKinds {
+		var cmd *exec.Cmd
+		switch kind {
+		case "z3", "z3-new":
+			cmd = exec.Command(kind, "-in", "-smt2", fmt.Sprintf("-T:%d", to))
+		case "cvc5":
+			cmd = exec.Command("cvc5", "--lang=smt2", "--produce-models", fmt.Sprintf("--tlimit=%d", to*1000))
+		default:
+			continue
+		}
+		cmd.Stdin = strings.NewReader(text)
+		out, _ := cmd.Output()
+		txt := string(out)
+		first := strings.TrimSpace(strings.SplitN(txt, "\n", 2)[0])
+		switch first {
+		case "unsat":
+			return Unsat, nil
+		case "sat":
+			if strings.Contains(txt, "(error") {
+				continue
+			}
+			m := map[string]uint64{}
+			if i := strings.Index(txt, "\n"); i >= 0 {
+				parseValues(txt[i+1:], m)
+			}
+			return Sat, m
+		}
+	}
+	if s.Log != nil {
+		fmt.Fprintf(s.Log, "; ---- one-shot failed ----\n%s; ---- end ----\n", text)
+	}
+	return Unknown, nil
 }
 
 // Model fetches values of the given symbols after a sat answer.
@@ -274,7 +527,7 @@ func (s *Solver) readSexp() string {
 	depth := 0
 	started := false
 	for {
-		line, err := s.out.ReadString('\n')
+		line, err := s.rawLine()
 		if err != nil {
 			return sb.String()
 		}
